@@ -7,4 +7,4 @@ while read -r ID CHECKS; do
   [ -f /verif/seeded/$ID/patch.diff ] || continue
   /verif/tools/mut_env.sh run /verif/seeded/$ID/patch.diff $CHECKS > /verif/seeded/$ID/final.txt 2>&1
   echo "$ID: $(grep -c 'exit=1' /verif/seeded/$ID/final.txt) of $(echo $CHECKS | wc -w) report it"
-done < /verif/seeded/focus.txt
+done < "${FOCUS_FILE:-/verif/seeded/focus.txt}"
